@@ -53,6 +53,31 @@ theorem relay_not_bound (s : Core) (p : Packet) (h : Nat) (cl : Client) (sn : Sn
       ({ p with relay := "" } : Packet).src != s.name) = true) = False := by simp [hdst]
   simp only [hb, Bool.not_true, Bool.false_eq_true, if_false, hinv, hcl']
 
+/-- **Relay chain not bound on the way back either.** On the source chain, an acknowledgement
+    for a packet it sent is accepted from *any* chain `r` it has an active client of, provided
+    `r`'s recorded state holds that acknowledgement under the packet's key: presenting the packet
+    with `relay := r` makes `r` the proving chain, and the stored commitment only covers the data.
+    (`r` records an error acknowledgement under that key as soon as it is shown the packet with
+    `relay := r` and has no routing rule for it — `relay_reject_error_ack`, C11; the consequence
+    for tokens is `C04.one_holder_fails_under_relay_edit`.) -/
+theorem ack_relay_not_bound (s : Core) (p : Packet) (a : Data) (h : Nat) (r : Chain) (cl : Client) (sn : Snapshot)
+    (hv : validatePacket s p = .ok) (hsrc : p.src = s.name) (hr : r ≠ "")
+    (hcm : s.ps.commit p.key = some (H p.data))
+    (hcl : s.clients r = some cl) (hact : cl.active s.now = true) (hle : h ≤ cl.latest) (hsn : cl.cons h = some sn)
+    (hc : sn.ack p.key = some (H a)) :
+    AckOk H s { p with relay := r } a (.honest r h (.ack p.key)) h := by
+  have hprover : ackProver s { p with relay := r } = r := by
+    unfold ackProver; simp [hsrc, hr]
+  refine ⟨?_, hcm, cl, sn, by rw [hprover]; exact hcl, hact, hle, hsn, by rw [hprover]; rfl, hc⟩
+  have hpb := (validatePacket_ok s p hv)
+  unfold validatePacket
+  have hb : packetBasic { p with relay := r } = true := hpb.1
+  have hcl' : ¬ (({ p with relay := r } : Packet).seq ≤ s.ps.clean ({ p with relay := r } : Packet).pair) := by
+    have := hpb.2; simp only [Packet.pair] at this ⊢; omega
+  have hinv : ((({ p with relay := r } : Packet).relay != s.name && ({ p with relay := r } : Packet).dst != s.name &&
+      ({ p with relay := r } : Packet).src != s.name) = true) = False := by simp [hsrc]
+  simp only [hb, Bool.not_true, Bool.false_eq_true, if_false, hinv, hcl']
+
 /-! Evaluated witnesses (the histories replayed on the real chains). -/
 def exH : Data → Digest := fun d => match d with | .raw s => s | _ => ""
 def pkt : Packet := { seq := 1, src := "A", dst := "C", relay := "R", port := "tibcmock", data := .raw "aa" }
